@@ -247,6 +247,56 @@ InsertTok(T, i, ta) ==
    nodes |-> Norm({[x EXCEPT !.y = sh(x.y) \cup (IF x.d = 0 THEN {i} ELSE {})] : x \in T.nodes}
                   \cup {[y |-> {i}, d |-> 1, tok |-> TRUE, a |-> ta]})]
 
+
+\* ---- terminal files: rows = ascending sequence of [idx, word, tag] for this sentence;
+\*      tag = <<>> means "no POS column" (substitute only)
+NewTokAttr(word, tag) == [NoAttr EXCEPT !.word = word, !.lab = tag, !.morph = "--",
+                                       !.lemma = "--", !.edge = "--"]
+InsertInRange(i, n) ==
+  IF "insert_negative_index_accepted" \in Dev THEN ~(i > n + 1 \/ i = 0)
+  ELSE i >= 1 /\ i <= n + 1
+RECURSIVE InsertTerminals(_, _)
+InsertTerminals(T, rows) ==
+  IF rows = <<>> THEN T
+  ELSE LET r == Head(rows) IN
+       InsertTerminals(IF InsertInRange(r.idx, T.n) THEN InsertTok(T, r.idx, NewTokAttr(r.word, r.tag))
+                       ELSE T, Tail(rows))
+RECURSIVE SubstituteTerminals(_, _)
+SubstituteTerminals(T, rows) ==
+  IF rows = <<>> THEN T
+  ELSE LET r == Head(rows) IN
+       SubstituteTerminals(
+         IF r.idx \in 1..T.n
+         THEN [T EXCEPT !.nodes = {IF x.tok /\ x.y = {r.idx}
+                                   THEN [x EXCEPT !.a.word = r.word,
+                                                  !.a.lab = IF r.tag = <<>> THEN @ ELSE r.tag]
+                                   ELSE x : x \in @}]
+         ELSE T, Tail(rows))
+
+\* ---- PTB trace deletion; wc = sequence of <<word atom, characters>> for the trace words
+NONE_TAG == <<"-", "N", "O", "N", "E", "-">>
+WChars(wc, w) == wc[CHOOSE i \in 1..Len(wc) : wc[i][1] = w][2]
+CleanLabel(lab, keepco) ==
+  LET p == Parse(lab, DefaultGfSep) IN
+  Format([p EXCEPT !.gap = <<>>, !.co = IF keepco THEN @ ELSE <<>>], FALSE, FALSE)
+TracePos(T) == {p \in 1..T.n : Tok(T, p).a.lab = NONE_TAG}
+TraceLabel(T, p, wc, keepco) == CleanLabel(WChars(wc, Tok(T, p).a.word), keepco)
+KeptTraces(T, o, wc) ==
+  {p \in TracePos(T) : "keepall" \in o.flags \/
+      \E k \in 1..Len(o.keep) : o.keep[k] = TraceLabel(T, p, wc, "keepcoindex" \in o.flags)}
+PtbDeleteTraces(T, o, wc) ==
+  LET keepco == "keepcoindex" \in o.flags
+      K  == KeptTraces(T, o, wc)
+      T1 == [T EXCEPT !.nodes =
+               {IF x.tok /\ SetMin(x.y) \in K
+                THEN [x EXCEPT !.a.lab = TraceLabel(T, SetMin(x.y), wc, keepco), !.a.word = "-NONE-"]
+                ELSE x : x \in @}]
+      T2 == DeleteToks(T1, TracePos(T) \ K)
+  IN [T2 EXCEPT !.nodes = {IF x.tok THEN x ELSE [x EXCEPT !.a.lab = CleanLabel(@, keepco)] : x \in @}]
+
+FilterDrops(T, o) ==
+  \/ (o.fop = "lt" /\ T.n < o.fval) \/ (o.fop = "gt" /\ T.n > o.fval) \/ (o.fop = "eq" /\ T.n = o.fval)
+
 -----------------------------------------------------------------------------
 (* PROPERTY LEVEL                                                          *)
 (* A, B : abstract pre / post trees (B only if the post graph is WF)       *)
